@@ -219,9 +219,20 @@ class Machine:
         else:
             shape = self._shape(rng)
             a = _rand_array(rng, palette, shape)
+        as_dtype = None
+        r = rng.random()
+        if r < 0.12:
+            # selected / not-selected flags: a boolean array (bincount and == treat it as 0/1), any density
+            density = rng.choice((0.15, 0.35, 0.5, 0.65, 0.85))
+            a = numpy.array([1 if rng.random() < density else 0 for _ in range(a.size)], dtype=numpy.int64).reshape(a.shape)
+            as_dtype = "bool"
+        elif r < 0.3 and a.size and 0 <= int(a.min()) and int(a.max()) < 128:
+            as_dtype = rng.choice(("int8", "uint8", "int16", "uint16", "int32", "uint32", "uint64"))
         present = sorted(set(a.ravel().tolist()))
         op = {"op": "from_array", "dst": self._dst(rng), "shape": list(a.shape), "values": a.ravel().tolist(),
               "common": None, "counts": rng.random() < 0.3, "mapping": None}
+        if as_dtype:
+            op["as"] = as_dtype
         r = rng.random()
         if r < 0.25 and present:
             op["common"] = rng.choice(present)
@@ -581,6 +592,9 @@ class Machine:
 
     def do_from_array(self, op):
         a = _arr(op["values"], op["shape"])
+        if op.get("as"):
+            a = a.astype(op["as"])  # same values in another element type
+            self.stats.count("from_array_dtype_" + op["as"])
         kw = {}
         if op["common"] is not None:
             kw["common"] = op["common"]
